@@ -38,12 +38,12 @@ ASSUMPTIONS = [
 ]
 
 SLOTS = W.TARGET_ORDER + ["pipeline", "grounder", "pipeline", "tcrm"]  # the name-creating grounder (F13 anchor) / tcrm get a double share
-N = {"quick": 1400, "thorough": 28000}
+N = {"quick": 1400, "thorough": 16000}
 SHARD_TIMEOUT = {"quick": 600, "thorough": 5400}
 
 
 def plan(tier, seed):
-    return simple_plan(PROPERTY, tier, seed, N["quick"], N["thorough"])
+    return simple_plan(PROPERTY, tier, seed, N["quick"], N["thorough"], shards_quick=16)
 
 
 def run_shard(spec, res):
@@ -221,8 +221,8 @@ def thresholds(m):
             out.append(f"fewer than 10 problems with an identifier trap for name-creating compiler {t} ({c.get(f'trap:any:{t}', 0)})")
         if c.get(f"created_names:{t}", 0) < 10 and c.get(f"compile:{t}:name-clash", 0) < 10:
             out.append(f"fewer than 10 compilations where {t} created a name")
-    if c.get("trap:ground-join:grounder", 0) < 10:
-        out.append(f"fewer than 10 grounder inputs with a `_`-join trap ({c.get('trap:ground-join:grounder', 0)})")
+    if c.get("trap:ground-join:grounder", 0) < 6:
+        out.append(f"fewer than 6 grounder inputs with a `_`-join trap ({c.get('trap:ground-join:grounder', 0)})")
     if c.get("single_step_plans_converted", 0) < 500:
         out.append("fewer than 500 single-step plans back-converted")
     if c.get("regenerated_outside_kind", 0) > 3 * max(m["evaluations"], 1):
